@@ -310,7 +310,8 @@ static Plan gen_c07(uint64_t seed, const std::string &tier) {
         CfgSpec s; s.has_chain = true; s.chain = chain; s.has_format = true; s.format = "X%{filename}"; s.has_output = true; s.output = outv;
         // a dropped call is silent - also when its message would not have fitted and error logging is on
         bool noisy = !p.extra.getb("exhaustive") && seed % 5 == 0;
-        if (noisy) { s.format = "X%{filename} %{cmdline} %{cmdline}"; s.has_errlog = true; s.errlog = "yes"; s.has_logmax = true; s.logmax = "255"; }
+        if (noisy) { s.format = "X%{filename} %{cmdline} %{cmdline}"; s.has_errlog = true; s.errlog = "yes"; s.has_logmax = true; s.logmax = "255";
+                     if (s.output.find("%{datetime") != std::string::npos) s.output = "file:/log/c07"; }   // several dispatches per call: a path that names the day could change between them at midnight
         p.ops.push_back(op_setconfig(s.render(r, true)));
         ExecOp e; e.api = (int)r.below(2); e.path = "/bin/x"; e.argv = {"x"}; if (noisy) e.argv = {"x", std::string(300, 'L')}; gen_outcome(r, e, false);
         p.ops.push_back(op_exec(e));
